@@ -156,6 +156,77 @@ def run_c04_absent(fe, spec, pk, sh, stats):
     return res
 
 
+def run_reuse(prop, fe, spec, pk, sh, stats):
+    """decoding a message into an object that already holds another decoded message gives that message
+    (a recycled value, or Decode after Decode): payload alternative a first, then alternative b"""
+    res = []
+    if not hasattr(fe, 'redecode'):
+        return res
+    mfs = [f for f in pk.fields if f.kind == 'match']
+    nal = count_alts(spec, pk)
+    if not mfs or nal < 2:
+        return res
+    asm = []
+    msg_a = build_msg(spec, pk, sh, pk.name, asm)
+    sh_b = Shape(sh.s, sh.k, sh.alt + 1, sh.salt)
+    msg_b = build_msg(spec, pk, sh_b, pk.name + "'", asm)
+    da = ref_enc(RefCtx(spec), pk, msg_a)
+    rb = RefCtx(spec)
+    db = ref_enc(rb, pk, msg_b)
+
+    def fresh(c):
+        o, r = fe.decode(c, pk, list(db))
+        return r, fe.to_logical(pk, o)
+    # baseline: a fresh decode of the second message must itself be right, otherwise the defect is not about
+    # reuse and the plain decode obligations report it
+    for r, pc in list(PathCtl(asm, max_paths=32).explore(fresh)):
+        if isinstance(r, Outcome):
+            return res
+        diffs = []
+        diff_obj(spec, pk, msg_b, r[1], pk.name, diffs)
+        for path, aspect, term in diffs:
+            if term is True or check_valid('reuse-base', asm + pc, term).status != 'unsat':
+                return res
+        if r[0] != len(db):
+            return res
+
+    def run(c):
+        try:
+            o, r = fe.decode(c, pk, list(da))
+        except Outcome:
+            return None      # the first decode fails by itself: reported by the plain decode obligations
+        o, r2 = fe.redecode(c, o, pk, list(db))
+        return r2, fe.to_logical(pk, o)
+    for r, pc in list(PathCtl(asm, max_paths=32).explore(run)):
+        if r is None:
+            continue
+        stats.obligations += 1
+        A = asm + pc
+        if isinstance(r, Outcome):
+            res.append(Finding(prop, fe.lang, spec.name, pk.name, sh.ident(), 'match', '*', 'reuse:outcome:%s:%s' % (r.kind, norm_detail(r.detail)),
+                               detail='second decode into the same object: %s' % r, cex=first_model(A, msg_b)))
+            continue
+        ridx, lv = r
+        diffs = []
+        diff_obj(spec, pk, msg_b, lv, pk.name, diffs)
+        for path, aspect, term in diffs:
+            if term is True:
+                bad, cex = True, first_model(A, msg_b)
+            else:
+                v = check_valid('reuse', A, term)
+                bad, cex = v.status == 'sat', (concretise(msg_b, v.model) if v.status == 'sat' else None)
+            if bad:
+                desc = construct_of(spec, pk, path[len(pk.name) + 1:])
+                res.append(Finding(prop, fe.lang, spec.name, pk.name, sh.ident(), desc, '*', 'reuse:decode:' + norm_detail(aspect),
+                                   detail='after decoding another message into the same object: %s %s' % (path, aspect), cex=cex))
+                break
+        else:
+            if ridx != len(db):
+                res.append(Finding(prop, fe.lang, spec.name, pk.name, sh.ident(), 'packet', '*', 'reuse:position%+d' % (ridx - len(db)),
+                                   detail='second decode consumed %d of %d bytes' % (ridx, len(db)), cex=first_model(A, msg_b)))
+    return res
+
+
 def run_c05(fe, spec, pk, sh, stats):
     """symbolic key over its whole type: decode dispatches exactly as the table says; encode writes the caller's payload"""
     res = []
@@ -488,6 +559,9 @@ def worker(job):
     prop, tier, pname = job
     t0 = time.time()
     core.STATS.__init__()
+    del core.XSAMPLES[:]
+    core._XSEEN[0] = 0
+    core.XLIMIT = (4 if tier == 'thorough' else (2 if (sum(map(ord, pname)) % 4 == 0) else 0))
     progs = {p.name: p for p in family(tier)}
     spec = progs[pname]
     emits = _LOW['emits']
@@ -561,12 +635,16 @@ def worker(job):
                         cells_c01(prop, fe, spec, pk, sh, stats, res)
                     elif prop == 'C02':
                         cells_c02(prop, fe, spec, pk, sh, stats, res, ntrail)
+                        if sh.s == 1 and not sh.salt:
+                            res.extend(run_reuse(prop, fe, spec, pk, sh, stats))
                     elif prop == 'C04':
                         cells_c04(prop, fe, spec, pk, sh, stats, res, ntrail)
                         if sh.s == 1 and not sh.salt:
                             res.extend(run_c04_absent(fe, spec, pk, sh, stats))
                     elif prop == 'C05':
                         res.extend(run_c05(fe, spec, pk, sh, stats))
+                        if sh.s == 1:
+                            res.extend(run_reuse(prop, fe, spec, pk, sh, stats))
                     elif prop == 'C06':
                         cells_c06(prop, fe, spec, pk, sh, stats, res, ntrail)
                     elif prop == 'C07':
@@ -584,8 +662,103 @@ def worker(job):
         out['samples'].append({'program': pname, 'dsl': e['dsl'][:600], 'packets': [p.name for p in packets]})
     out['obligations'] = stats.obligations
     out['stats'] = core.STATS.as_dict()
+    out['xsamples'] = list(core.XSAMPLES)
     out['wall'] = time.time() - t0
     return out
+
+
+# ---------------------------------------------------------------------------- native replay (Python target)
+
+def cex_to_msg(spec, packet, cex):
+    """concrete pspec.Msg from a concretised counterexample"""
+    m = Msg(packet)
+    for f in packet.fields:
+        sem = spec.resolve(f)
+        v = cex.get(f.name)
+        if f.repeat:
+            m.v[f.name] = [cex_elem(spec, sem, x) for x in (v or [])]
+        elif sem[0] == 'match':
+            pk = spec.packet(v['__packet'])
+            m.v[f.name] = cex_to_msg(spec, pk, v)
+        else:
+            m.v[f.name] = cex_elem(spec, sem, v)
+    return m
+
+
+def cex_elem(spec, sem, v):
+    if sem[0] in ('basic', 'lengthof', 'checksum'):
+        return z3.BitVecVal(int(v), 8 * WIDTH[sem[1]])
+    if sem[0] in ('fixed', 'dyn'):
+        return [z3.BitVecVal(b, 8) for b in bytes.fromhex(v['bytes'] if isinstance(v, dict) else '')]
+    if sem[0] == 'obj':
+        return cex_to_msg(spec, sem[1], v)
+    raise ValueError(sem)
+
+
+def msg_to_native(spec, packet, cex):
+    out = {'__packet': packet.name}
+    for f in packet.fields:
+        sem = spec.resolve(f)
+        v = cex.get(f.name)
+
+        def one(x):
+            if sem[0] in ('basic', 'lengthof', 'checksum'):
+                t = sem[1]
+                if t in ('f32', 'f64'):
+                    return {'float': int(x), 'w': 8 * WIDTH[t]}
+                x = int(x)
+                if t.startswith('i') and x >> (8 * WIDTH[t] - 1):
+                    x -= 1 << (8 * WIDTH[t])
+                return x
+            if sem[0] in ('fixed', 'dyn'):
+                return {'bytes': x['bytes'] if isinstance(x, dict) else ''}
+            if sem[0] == 'obj':
+                return msg_to_native(spec, sem[1], x)
+            if sem[0] == 'match':
+                return msg_to_native(spec, spec.packet(x['__packet']), x)
+        out[f.name] = [one(x) for x in (v or [])] if f.repeat else one(v)
+    return out
+
+
+def native_replay_python(spec, emit, rec):
+    """run the real emitted Python module with runtimes/python on the counterexample message; returns dict or None"""
+    import subprocess, tempfile
+    cex = rec.get('cex')
+    if not isinstance(cex, dict) or 'key' in cex:
+        return None
+    files = emit['files'].get('py', {})
+    srcs = [p for rel, p in files.items() if rel.endswith('.py') and not rel.endswith('_test.py')]
+    pk = None
+    from .fe_py import all_packets
+    for q in all_packets(spec):
+        if q.name == rec['packet']:
+            pk = q
+    if not srcs or pk is None:
+        return None
+    try:
+        msg = cex_to_msg(spec, pk, cex)
+        want = eval_bytes(ref_enc(RefCtx(spec, cks_registered=False), pk, msg), z3.Solver().model() if False else _empty_model())
+        req = {'op': 'encode', 'class': pk.name, 'msg': msg_to_native(spec, pk, cex)}
+    except Exception as e:
+        return {'skipped': 'cannot rebuild the message: %s' % e}
+    with tempfile.NamedTemporaryFile('w', suffix='.json', delete=False) as tf:
+        json.dump(req, tf)
+    try:
+        r = subprocess.run(['python3', os.path.join(VERIF, 'runtimes', 'python', 'replay_driver.py'), srcs[0], tf.name], capture_output=True, text=True, timeout=30)
+        out = json.loads(r.stdout.strip().split('\n')[-1]) if r.stdout.strip() else {'exception': r.stderr[-200:]}
+    except Exception as e:
+        out = {'exception': str(e)}
+    finally:
+        os.unlink(tf.name)
+    out['reference_hex'] = want.hex()
+    out['confirmed'] = ('exception' in out) or (out.get('hex') != want.hex())
+    return out
+
+
+def _empty_model():
+    s = z3.Solver()
+    s.check()
+    return s.model()
 
 
 # ---------------------------------------------------------------------------- main
@@ -623,6 +796,11 @@ def main(prop, tier, update_known=False):
     funcs = collections.Counter()
     samples = []
     protoc_rejects = []
+    xs = []
+    for r in results:
+        xs.extend(r.get('xsamples') or [])
+    xres = core.cross_solve(xs[:1500])
+    xbad = sum((v.get('disagree') or 0) for v in xres.values() if isinstance(v, dict))
     for r in results:
         st = r['stats']
         for k, v in st.items():
@@ -672,6 +850,7 @@ def main(prop, tier, update_known=False):
         print('KNOWN-FINDING: property=%s %s :: %s' % (prop, s, (f['detail'] or '')[:140]))
     rdir = os.path.join(VERIF, 'replays', prop)
     nviol = 0
+    unconfirmed = []
     byprog = {p.name: p for p in progs}
     for s, fs in violations:
         f = fs[0]
@@ -681,7 +860,18 @@ def main(prop, tier, update_known=False):
         rec = dict(f)
         rec['dsl'] = emits[f['program']]['dsl'] if f['program'] in emits else None
         rec['cells_affected'] = len(fs)
-        rec['confirmation'] = 'counterexample re-evaluated concretely by the front-end; native replay: see runtimes/ (replay_cmd)'
+        if f.get('lang') == 'python' and prop in ('C01', 'C04', 'C06') and f['program'] in byprog and 'unregistered' not in s and 'registered' not in s:
+            nat = native_replay_python(byprog[f['program']], emits[f['program']], f)
+            if nat is not None:
+                rec['native_replay'] = nat
+                if nat.get('confirmed') is False:
+                    unconfirmed.append(s)
+                    rec['unconfirmed'] = True
+        rec['confirmation'] = 'counterexample re-evaluated concretely by the front-end' + ('; natively replayed (python runtime)' if rec.get('native_replay') else '')
+        if rec.get('unconfirmed'):
+            # the real emitted module produces the reference bytes for this message: encoder/stub defect of ours, never an alarm
+            print('UNCONFIRMED (not reported): %s' % s)
+            continue
         json.dump(rec, open(path, 'w'), indent=1, default=str)
         print('VIOLATION property=%s replay=%s' % (prop, path))
         print('  %s :: %s' % (s, (f['detail'] or '')[:200]))
@@ -701,7 +891,8 @@ def main(prop, tier, update_known=False):
             'bounds': bounds(tier), 'inconclusive_cells': len(incon), 'inconclusive_samples': [list(x) for x in incon[:8]],
             'frontend_rejects': len(rejects), 'frontend_reject_samples': [[k[0], k[1], len(v)] for k, v in list(rejects.items())[:12]],
             'missing_member_cells': len(missing), 'protoc_rejected_programs': [p for p, _ in protoc_rejects],
-            'known_findings_seen': len(knowns), 'new_findings': nviol,
+            'known_findings_seen': len(knowns), 'new_findings': nviol, 'unconfirmed_counterexamples': unconfirmed[:10],
+            'cross_solver_diff': xres,
         },
         'assumptions': ASSUMPTIONS, 'wall_s': round(wall, 1), 'violations': nviol,
     }
@@ -709,6 +900,9 @@ def main(prop, tier, update_known=False):
     json.dump(ev, open(os.path.join(VERIF, 'evidence', prop + '.json'), 'w'), indent=1, default=str)
     print('%s %s: programs=%d cells=%d queries=%d unsat=%d sat=%d unknown=%d known=%d new=%d inconclusive=%d wall=%.1fs' % (
         prop, tier, len(sel), cells, total.queries, total.unsat, total.sat, total.unknown, len(knowns), nviol, len(incon), wall))
+    if xbad:
+        print('TOOL-ERROR: %d sampled obligations are decided differently by another solver: %s' % (xbad, xres))
+        return 3
     return 1 if nviol else 0
 
 
